@@ -20,7 +20,10 @@ Cmp(op, s, t) == <<"cmp", op, s, t>>
 TAtoms == { Cmp("eq", <<"index", "x", "pair", 1>>, L(1)), Cmp("eq", <<"index", "x", "pair", 0>>, <<"index", "y", "pair", 1>>),
             Cmp("eq", <<"call", "x", "twice_a">>, L(2)), Cmp("ge", <<"call1", "x", "plus", 1>>, L(2)),
             Cmp("lt", <<"call", "y", "twice_a">>, <<"call1", "x", "plus", 1>>),
-            Cmp("eq", <<"attr", "s", "b">>, <<"attr", "x", "b">>), Cmp("ne", <<"var", "x">>, <<"var", "s">>) }
+            Cmp("eq", <<"attr", "s", "b">>, <<"attr", "x", "b">>), Cmp("ne", <<"var", "x">>, <<"var", "s">>),
+            \* two components of the SAME stored tuple (pos = <<a, b>>, a stored attribute, not a computed one) / two method
+            \* results of the same object compared with each other
+            Cmp("eq", <<"index", "x", "pos", 0>>, <<"index", "x", "pos", 1>>), Cmp("ne", <<"call", "x", "twice_a">>, <<"call1", "x", "plus", 1>>) }
 \* a truth-valued attribute used directly as a condition:  x.a  holds iff the value is truthy (a, b are 0 / 1)
 TruthAtoms == { <<"truth", <<"attr", "x", "a">> >>, <<"truth", <<"attr", "y", "b">> >> }
 OtherAtoms == { Cmp("eq", <<"attr", "x", "a">>, L(0)), Cmp("eq", <<"attr", "y", "b">>, L(1)), Cmp("eq", <<"attr", "x", "a">>, <<"attr", "y", "b">>),
